@@ -64,7 +64,7 @@ var libOptExempt = map[string]string{
 
 func init() {
 	register(&PropSpec{ID: "C01",
-		Explain: "Decides necessary structural conditions of the v2 diff-then-patch round trip: (R-FWD) every recursive patch call hands the callee the caller's own old/new values, strategy and remaining path; (R-OPTFWD, patch side) identity lookups in patch use the options the path element prescribes; (R-PATHFRESH) no hunk shares its path's backing array with the recursion; (R-KINDS) the path element kind a container's diff emits is routed by next()+dispatch back to the same container semantics and accepted by its patch; (R-PROV) removes come from the receiver side, adds from the argument side.",
+		Explain:     "Decides necessary structural conditions of the v2 diff-then-patch round trip: (R-FWD) every recursive patch call hands the callee the caller's own old/new values, strategy and remaining path; (R-OPTFWD, patch side) identity lookups in patch use the options the path element prescribes; (R-PATHFRESH) no hunk shares its path's backing array with the recursion; (R-KINDS) the path element kind a container's diff emits is routed by next()+dispatch back to the same container semantics and accepted by its patch; (R-PROV) removes come from the receiver side, adds from the argument side.",
 		NotDecided:  "The LCS walk's cursor arithmetic, index validity after earlier hunks, list splice arithmetic, keyed-set matching on concrete values: value-level, not decided.",
 		Assumptions: commonAssumptions,
 		Run: func(w *World, r *Report) {
@@ -87,7 +87,7 @@ func init() {
 		}})
 
 	register(&PropSpec{ID: "C03",
-		Explain: "Decides that a strict list-mode hunk can only commit behind its checks: (R-FWD, all roles) before/after context, old/new values and strategy reach the array they belong to at any depth; (R-PATCHRESULT) the error and the result of every nested patch are consumed; (R-EXPECT) in every patch implementation a list-mode diff can reach, every success return is cut off from entry by the successful comparison of old value / removed elements / before and after context, and the failing side of each comparison only returns errors.",
+		Explain:     "Decides that a strict list-mode hunk can only commit behind its checks: (R-FWD, all roles) before/after context, old/new values and strategy reach the array they belong to at any depth; (R-PATCHRESULT) the error and the result of every nested patch are consumed; (R-EXPECT) in every patch implementation a list-mode diff can reach, every success return is cut off from entry by the successful comparison of old value / removed elements / before and after context, and the failing side of each comparison only returns errors.",
 		NotDecided:  "That the compared position is the adjacent element (index arithmetic), that only what the hunks say is changed (in-place aliasing of the target), behaviour for the -1 append index.",
 		Assumptions: commonAssumptions,
 		Run: func(w *World, r *Report) {
@@ -97,13 +97,14 @@ func init() {
 			rulePatchResult(w, r, pf, listModePatch)
 			ruleExpect(w, r, pf, listModePatch)
 			ruleDescend(w, r, pf)
+			ruleEqSize(w, r, newNodeTypes(w, v2, "v2"))
 			r.Floor("R-EXPECT", 12)
 			r.Floor("R-FWD", 80)
 			r.Floor("R-PATCHRESULT", 10)
 		}})
 
 	register(&PropSpec{ID: "C04",
-		Explain: "Decides structural necessary conditions of Equals: (R-TYPEGUARD) every Equals can answer anything but false only after a successful assertion that the (dispatched) argument has the receiver's own type; (R-HASHDOM) hash inputs of different node types are domain-separated by a constant 8-byte tag, pairwise distinct — necessary because SET/MULTISET equality compares digests; (R-HASHCOVER) each digest depends on everything the type's Equals compares; (R-OPTFWD, Equals side) nested comparisons receive the caller's options.",
+		Explain:     "Decides structural necessary conditions of Equals: (R-TYPEGUARD) every Equals can answer anything but false only after a successful assertion that the (dispatched) argument has the receiver's own type; (R-HASHDOM) hash inputs of different node types are domain-separated by a constant 8-byte tag, pairwise distinct — necessary because SET/MULTISET equality compares digests; (R-HASHCOVER) each digest depends on everything the type's Equals compares; (R-OPTFWD, Equals side) nested comparisons receive the caller's options.",
 		NotDecided:  "64-bit digest collisions within a type, precision arithmetic, reflexivity/symmetry on concrete values.",
 		Assumptions: commonAssumptions,
 		Run: func(w *World, r *Report) {
@@ -114,6 +115,8 @@ func init() {
 			ruleHashCover(w, r, nt)
 			ruleHashMove(w, r, nt)
 			ruleIdentUse(w, r, v2, "v2")
+			ruleDispatchTable(w, r, v2)
+			ruleEqSize(w, r, nt)
 			ruleOptFwd(w, r, v2, "v2", "Option", equalsSide, nil)
 			r.Floor("R-TYPEGUARD", 10)
 			r.Floor("R-HASHDOM", 10)
@@ -121,7 +124,7 @@ func init() {
 		}})
 
 	register(&PropSpec{ID: "C15",
-		Explain: "Decides purity and determinism of the read-only API: (R-PURE) from Json, Yaml, Equals, Diff of every node type and from DiffElement.Render, Diff.Render/RenderPatch/RenderMerge, Metadata.Render, no reachable instruction writes memory reachable from the receiver or an argument (interprocedural storage-origin analysis with mutation summaries; the patch family may write only into the node it patches); (R-MAPORDER) every range over a map in the v2 library has an order-insensitive body (keyed inserts, commutative accumulation, error/constant returns, appends that are sorted before any other use); (R-NONDET) no call into time or random sources.",
+		Explain:     "Decides purity and determinism of the read-only API: (R-PURE) from Json, Yaml, Equals, Diff of every node type and from DiffElement.Render, Diff.Render/RenderPatch/RenderMerge, Metadata.Render, no reachable instruction writes memory reachable from the receiver or an argument (interprocedural storage-origin analysis with mutation summaries; the patch family may write only into the node it patches); (R-MAPORDER) every range over a map in the v2 library has an order-insensitive body (keyed inserts, commutative accumulation, error/constant returns, appends that are sorted before any other use); (R-NONDET) no call into time or random sources.",
 		NotDecided:  "A node taken from a hunk's Add list becomes part of the patched document; a later hunk of the same Patch may update it in place (attributed to the receiver chain). Diffs produced by Diff or ReadMergeString never address the inside of a value they add.",
 		Assumptions: commonAssumptions,
 		Run: func(w *World, r *Report) {
@@ -137,7 +140,7 @@ func init() {
 
 func init() {
 	register(&PropSpec{ID: "C13",
-		Explain: "Decides, site by site, that no instruction reachable from reading arbitrary text (ReadDiff*/ReadPatch*/ReadMerge*/ReadJson*/ReadYaml*/NewPath/NewJsonNode) or from any Patch can panic: every index, slice, make, unchecked type assertion, explicit panic, integer division and call to a panicking library function in that call-graph closure is an obligation discharged by a named schema — S1 the Go compiler's prove pass removed the bounds check, S2 guard facts (branch-edge dataflow over len() and integer terms, closed enumerations, infeasible-edge pruning) imply the bounds, S3 range/len shapes, S5 closed path-element kinds for the panicking type-switch defaults, S6 marshal-cannot-fail (raw() type sets + finiteness of every float that becomes a number), S7 sort callbacks — or reported as an unproved may-panic site. R-CLIERR: neither main package panics or log.Fatals; every error reaches exit status 2.",
+		Explain:     "Decides, site by site, that no instruction reachable from reading arbitrary text (ReadDiff*/ReadPatch*/ReadMerge*/ReadJson*/ReadYaml*/NewPath/NewJsonNode) or from any Patch can panic: every index, slice, make, unchecked type assertion, explicit panic, integer division and call to a panicking library function in that call-graph closure is an obligation discharged by a named schema — S1 the Go compiler's prove pass removed the bounds check, S2 guard facts (branch-edge dataflow over len() and integer terms, closed enumerations, infeasible-edge pruning) imply the bounds, S3 range/len shapes, S5 closed path-element kinds for the panicking type-switch defaults, S6 marshal-cannot-fail (raw() type sets + finiteness of every float that becomes a number), S7 sort callbacks — or reported as an unproved may-panic site. R-CLIERR: neither main package panics or log.Fatals; every error reaches exit status 2.",
 		NotDecided:  "Diff/diffRest and the renderers (their index safety rests on cursor invariants), stack or memory exhaustion, panics inside yaml.v2/encoding/json/jsonpointer, nil JsonNodes injected through the Go API.",
 		Assumptions: append([]string{"the compiler's bounds-check elimination is semantics-preserving (a check it removed cannot fail)", "maps held by jsonObject values are non-nil (constructor invariant)"}, commonAssumptions...),
 		Run: func(w *World, r *Report) {
@@ -180,6 +183,9 @@ func runCLI(w *World, r *Report, parts ...string) {
 		if has("plumbing") {
 			c.rulePlumbing(r)
 		}
+		if has("modes") {
+			c.ruleLibrarySelect(r)
+		}
 		if has("nopanic") {
 			c.ruleNoPanic(r)
 		}
@@ -198,7 +204,7 @@ func runCLI(w *World, r *Report, parts ...string) {
 
 func init() {
 	register(&PropSpec{ID: "C14",
-		Explain: "Decides the command-line contract as control- and data-flow facts of both `package main`s (v2/jd and the top-level binary, incl. its -v2=false routines): E every os.Exit argument is a constant 0/1/2, exit 1 lies exactly on the edge where the diff routine's boolean is true and the other edge exits 0, every error returned by any call reaches a nil test whose failing side exits 2 (or is returned), the exit helpers always exit 2; D the diff routine's boolean is true exactly on the edges `rendered output != the library's empty rendering` and the library returns those sentinels for an empty diff; O in every print routine one value is printed with fmt.Print when -o is empty and written with WriteFile(*output, []byte(s)) otherwise, nothing else reaches stdout, and that value is exactly what Render/RenderPatch/RenderMerge/Json/Yaml returned; F the flag→option table; I readFile/readStdin return the bytes read untransformed and can only fail on a read error, FILE1/FILE2/stdin reach the documented parameters; M for every documented value of -f and -t exactly the documented reader/renderer is reachable and any other value is an error, -yaml selects the document codec; P FILE1→diff reader, FILE2→document reader, Diff(a,b) order; options given to the CLI are the options handed to the library (R-OPTFWD(cli)).",
+		Explain:     "Decides the command-line contract as control- and data-flow facts of both `package main`s (v2/jd and the top-level binary, incl. its -v2=false routines): E every os.Exit argument is a constant 0/1/2, exit 1 lies exactly on the edge where the diff routine's boolean is true and the other edge exits 0, every error returned by any call reaches a nil test whose failing side exits 2 (or is returned), the exit helpers always exit 2; D the diff routine's boolean is true exactly on the edges `rendered output != the library's empty rendering` and the library returns those sentinels for an empty diff; O in every print routine one value is printed with fmt.Print when -o is empty and written with WriteFile(*output, []byte(s)) otherwise, nothing else reaches stdout, and that value is exactly what Render/RenderPatch/RenderMerge/Json/Yaml returned; F the flag→option table; I readFile/readStdin return the bytes read untransformed and can only fail on a read error, FILE1/FILE2/stdin reach the documented parameters; M for every documented value of -f and -t exactly the documented reader/renderer is reachable and any other value is an error, -yaml selects the document codec; P FILE1→diff reader, FILE2→document reader, Diff(a,b) order; options given to the CLI are the options handed to the library (R-OPTFWD(cli)).",
 		NotDecided:  "That `jd -p` of the output reproduces b (that is C01/C02 behaviour), YAML content fidelity, the GitHub-action wrapper and the git diff driver protocol (exempt by name).",
 		Assumptions: commonAssumptions,
 		Run: func(w *World, r *Report) {
@@ -212,7 +218,7 @@ func init() {
 
 func init() {
 	register(&PropSpec{ID: "C05",
-		Explain: "Decides structural necessary conditions of `Diff is empty iff Equals`: (R-OPTFWD, diff side) every comparison a diff function makes — Equals, hashCode, ident, dispatch, nested diff — receives the caller's own options, so Diff decides under the options Equals is asked about; (R-CONGRUENCE) an option kind consulted by a type's Equals is consulted by its hashCode, because list diff matches elements by hashCode; (R-HASHDOM restricted to the scalar types that can be list elements) hash inputs carry a type tag, else two unequal elements are matched as common; (R-NOEMPTY) accumulated hunks are emitted only if non-empty and the scalar diff returns the empty diff exactly on the Equals-true edge; CLI half: exit status 1 lies exactly on the edge where the diff routine reports a difference, that boolean is `rendered output != the library's empty rendering`, the sentinels agree with the library, and the CLI hands its options to Diff unchanged.",
+		Explain:     "Decides structural necessary conditions of `Diff is empty iff Equals`: (R-OPTFWD, diff side) every comparison a diff function makes — Equals, hashCode, ident, dispatch, nested diff — receives the caller's own options, so Diff decides under the options Equals is asked about; (R-CONGRUENCE) an option kind consulted by a type's Equals is consulted by its hashCode, because list diff matches elements by hashCode; (R-HASHDOM restricted to the scalar types that can be list elements) hash inputs carry a type tag, else two unequal elements are matched as common; (R-NOEMPTY) accumulated hunks are emitted only if non-empty and the scalar diff returns the empty diff exactly on the Equals-true edge; CLI half: exit status 1 lies exactly on the edge where the diff routine reports a difference, that boolean is `rendered output != the library's empty rendering`, the sentinels agree with the library, and the CLI hands its options to Diff unchanged.",
 		NotDecided:  "Whether a non-empty merge diff can render as the sentinel {} (it can: `1` vs `{}`), how tolerance and hashing could be made to agree, digest collisions.",
 		Assumptions: commonAssumptions,
 		Run: func(w *World, r *Report) {
@@ -222,6 +228,7 @@ func init() {
 			ruleCongruence(w, r, nt)
 			ruleHashMove(w, r, nt)
 			ruleHashCover(w, r, nt)
+			ruleEqSize(w, r, nt)
 			ruleObjRecurse(w, r, v2, "v2")
 			ruleNoEmpty(w, r, v2, "v2", "Remove", "Add")
 			ruleHashDom(w, r, nt, map[string]bool{"jsonString": true, "jsonNumber": true, "jsonBool": true, "jsonNull": true, "jsonList": true, "jsonObject": true})
@@ -232,7 +239,7 @@ func init() {
 
 func init() {
 	register(&PropSpec{ID: "C08",
-		Explain: "Decides that set / multiset / keyed-member hunks can only commit behind their expectations: (R-EXPECT) in jsonSet.patch and jsonMultiset.patch every success return that is not a forwarded nested result lies behind the loop over the removed members, every way round that loop passes the lookup hit and a successful Equals of the found member (multiset: the count-underflow schema), every other way out only returns errors, and the whole-value base case lies behind a successful Equals; (R-PATCHRESULT) the outcome of the nested patch of a keyed member is consumed; (R-FWD) the keyed member receives the caller's expectations; (R-KINDS) the path kinds a set/multiset diff emits are the kinds its patch accepts; (R-IDENTUSE) identity hashing (ident/pathIdent) is used only by set diff/patch, never by Equals/hashCode.",
+		Explain:     "Decides that set / multiset / keyed-member hunks can only commit behind their expectations: (R-EXPECT) in jsonSet.patch and jsonMultiset.patch every success return that is not a forwarded nested result lies behind the loop over the removed members, every way round that loop passes the lookup hit and a successful Equals of the found member (multiset: the count-underflow schema), every other way out only returns errors, and the whole-value base case lies behind a successful Equals; (R-PATCHRESULT) the outcome of the nested patch of a keyed member is consumed; (R-FWD) the keyed member receives the caller's expectations; (R-KINDS) the path kinds a set/multiset diff emits are the kinds its patch accepts; (R-IDENTUSE) identity hashing (ident/pathIdent) is used only by set diff/patch, never by Equals/hashCode.",
 		NotDecided:  "Order independence and `other members untouched` on concrete values, non-array targets of set paths (a set hunk applied to a scalar replaces it), digest collisions.",
 		Assumptions: commonAssumptions,
 		Run: func(w *World, r *Report) {
@@ -241,11 +248,14 @@ func init() {
 			ruleExpect(w, r, pf, setModePatch)
 			rulePatchResult(w, r, pf, setModePatch)
 			ruleFWD(w, r, pf, []string{"pathAhead", "before", "oldValues", "newValues", "after", "strategy"})
-			ruleOptFwd(w, r, v2, "v2", "Option", func(fn *ssa.Function) bool { return patchSide(fn) && !listModePatch(fn) || fn.Name() == "pathIdent" || fn.Name() == "ident" }, nil)
+			ruleOptFwd(w, r, v2, "v2", "Option", func(fn *ssa.Function) bool {
+				return patchSide(fn) && !listModePatch(fn) || fn.Name() == "pathIdent" || fn.Name() == "ident"
+			}, nil)
 			ruleKinds(w, r, v2)
 			ruleIdentUse(w, r, v2, "v2")
 			ruleIdentProv(w, r, v2, "v2")
 			ruleSearchAll(w, r, pf, setModePatch)
+			ruleKeyBind(w, r, pf)
 			r.Floor("R-EXPECT", 6)
 		}})
 }
@@ -254,7 +264,7 @@ var v2Prov = map[string]string{"Remove": "a", "Add": "b", "Before": "b", "After"
 
 func init() {
 	register(&PropSpec{ID: "C07",
-		Explain: "Decides structural necessary conditions of `every hunk is a real difference`: (R-NOEMPTY) an accumulated set/multiset hunk is emitted only behind a test that it removes or adds something, and the scalar diff returns the empty diff exactly on the Equals-true edge; (R-SETMEMBER) the set diff lists a member only on the miss edge of its lookup among the other side's members; (R-PROV) what a hunk removes is drawn from the receiver side only, what it adds from the argument side only; (R-PATHFRESH) a hunk owns its path, so it keeps addressing the location it was made for.",
+		Explain:     "Decides structural necessary conditions of `every hunk is a real difference`: (R-NOEMPTY) an accumulated set/multiset hunk is emitted only behind a test that it removes or adds something, and the scalar diff returns the empty diff exactly on the Equals-true edge; (R-SETMEMBER) the set diff lists a member only on the miss edge of its lookup among the other side's members; (R-PROV) what a hunk removes is drawn from the receiver side only, what it adds from the argument side only; (R-PATHFRESH) a hunk owns its path, so it keeps addressing the location it was made for.",
 		NotDecided:  "That what a hunk removes differs from what it adds, leave-one-out redundancy, the list diff's discarding of an empty accumulator (closure over a mutable cell), multiset surplus counts (sign test on a count difference).",
 		Assumptions: commonAssumptions,
 		Run: func(w *World, r *Report) {
@@ -262,6 +272,7 @@ func init() {
 			ruleNoEmpty(w, r, v2, "v2", "Remove", "Add")
 			ruleOptFwd(w, r, v2, "v2", "Option", diffSide, nil)
 			ruleSetMember(w, r, v2, "v2", "Remove", "Add")
+			ruleBagCount(w, r, v2, "v2", "Remove", "Add")
 			ruleWholeObject(w, r, v2, "v2", "Add")
 			ruleObjRecurse(w, r, v2, "v2")
 			nt := newNodeTypes(w, v2, "v2")
@@ -276,7 +287,7 @@ func init() {
 
 func init() {
 	register(&PropSpec{ID: "C02",
-		Explain: "Decides that the native text format carries hunks losslessly at the level of line kinds: (R-AUTOMATON) the reader's transition / flush / field-effect table is extracted from readDiff's SSA by evaluating one loop iteration under every (state constant, header character) pair with assumption-pruned reachability (the state is the int phi of constants at the line loop, the transition validator closure is checked to be a membership test); the writer's line grammar (field order, line-leading literal per field for void and value elements, metadata and path lines) is extracted from DiffElement.Render the same way; then every sequence of up to three hunks over all hunk shapes C02 names (context absent/boundary/value on each side, 0..2 removes, 0..2 adds, void addition, merge flag, strict hunks followed by merge hunks) is simulated against the extracted table: no line is rejected, every hunk is flushed exactly once (a pending hunk overwritten without a flush is a lost hunk), every line appends the right kind of value to the right field, and the path line resets all four lists; (R-PATHTAB) the path<->JSON mapping tables of Path.JsonNode and NewPath are inverse on the six readable kinds; (R-JSONCODEC) hunk payloads are encoded by json.Marshal only, with and without colour.",
+		Explain:     "Decides that the native text format carries hunks losslessly at the level of line kinds: (R-AUTOMATON) the reader's transition / flush / field-effect table is extracted from readDiff's SSA by evaluating one loop iteration under every (state constant, header character) pair with assumption-pruned reachability (the state is the int phi of constants at the line loop, the transition validator closure is checked to be a membership test); the writer's line grammar (field order, line-leading literal per field for void and value elements, metadata and path lines) is extracted from DiffElement.Render the same way; then every sequence of up to three hunks over all hunk shapes C02 names (context absent/boundary/value on each side, 0..2 removes, 0..2 adds, void addition, merge flag, strict hunks followed by merge hunks) is simulated against the extracted table: no line is rejected, every hunk is flushed exactly once (a pending hunk overwritten without a flush is a lost hunk), every line appends the right kind of value to the right field, and the path line resets all four lists; (R-PATHTAB) the path<->JSON mapping tables of Path.JsonNode and NewPath are inverse on the six readable kinds; (R-JSONCODEC) hunk payloads are encoded by json.Marshal only, with and without colour.",
 		NotDecided:  "Payload fidelity (escaping by encoding/json), `identical effect on every document` (needs C01), colour output beyond structure, strict-after-merge metadata inheritance (excluded by the property).",
 		Assumptions: commonAssumptions,
 		Run: func(w *World, r *Report) {
@@ -293,7 +304,7 @@ func init() {
 
 func init() {
 	register(&PropSpec{ID: "C16",
-		Explain: "Decides the structural part of JSON/YAML interchangeability: (R-YAMLTYPES) NewJsonNode has an arm for every dynamic type yaml.v2 v2.4.0 and encoding/json can put into an interface{} (map[interface{}]interface{}, map[string]interface{}, []interface{}, string, bool, int, int64, uint64, float64, nil) and each scalar arm yields the matching node type (a string stays a string, whatever it looks like); (R-CODEC) ReadJson* decode with json.Unmarshal and ReadYaml* with yaml.Unmarshal through the same unmarshal()+NewJsonNode path, Json() reaches only json.Marshal and Yaml() only yaml.Marshal (named exceptions: null renders through JSON, void renders as the empty string); (R-JSONCODEC) no other entry point of either codec is used anywhere in the library.",
+		Explain:     "Decides the structural part of JSON/YAML interchangeability: (R-YAMLTYPES) NewJsonNode has an arm for every dynamic type yaml.v2 v2.4.0 and encoding/json can put into an interface{} (map[interface{}]interface{}, map[string]interface{}, []interface{}, string, bool, int, int64, uint64, float64, nil) and each scalar arm yields the matching node type (a string stays a string, whatever it looks like); (R-CODEC) ReadJson* decode with json.Unmarshal and ReadYaml* with yaml.Unmarshal through the same unmarshal()+NewJsonNode path, Json() reaches only json.Marshal and Yaml() only yaml.Marshal (named exceptions: null renders through JSON, void renders as the empty string); (R-JSONCODEC) no other entry point of either codec is used anywhere in the library.",
 		NotDecided:  "Quoting of ambiguous scalars by yaml.v2, float formatting, key types — behaviour of the two codec libraries on run-time values.",
 		Assumptions: commonAssumptions,
 		Run: func(w *World, r *Report) {
@@ -304,6 +315,7 @@ func init() {
 			ruleRawArg(w, r, v2)
 			ruleRawTypes(w, r, v2)
 			ruleJSONCodec(w, r, v2, "v2")
+			ruleRawInput(w, r, v2, "v2")
 			r.Floor("R-YAMLTYPES", 12)
 			r.Floor("R-CODEC", 20)
 		}})
@@ -311,7 +323,7 @@ func init() {
 
 func init() {
 	register(&PropSpec{ID: "C09",
-		Explain: "Decides structural necessary conditions of the RFC 6902 rendering: (R-PTR) writePointer writes a token for every path element or returns an error, every object key reaches the pointer only through jsonpointer.Escape, number-like keys and the key \"-\" are refused before they could be written, set/multiset path elements are refused; (R-PAIR) the only ops emitted are test, remove, add and every remove is emitted right after a test of the same pointer and value; (R-REVADD) all adds of one hunk target one pointer, so the hunk's Add list is traversed backwards (RFC 6902 add inserts before).",
+		Explain:     "Decides structural necessary conditions of the RFC 6902 rendering: (R-PTR) writePointer writes a token for every path element or returns an error, every object key reaches the pointer only through jsonpointer.Escape, number-like keys and the key \"-\" are refused before they could be written, set/multiset path elements are refused; (R-PAIR) the only ops emitted are test, remove, add and every remove is emitted right after a test of the same pointer and value; (R-REVADD) all adds of one hunk target one pointer, so the hunk's Add list is traversed backwards (RFC 6902 add inserts before).",
 		NotDecided:  "Equivalence with an RFC 6902 evaluator: op order across hunks, the index arithmetic of the context tests.",
 		Assumptions: commonAssumptions,
 		Run: func(w *World, r *Report) {
@@ -324,7 +336,7 @@ func init() {
 			r.Floor("R-PTR", 6)
 		}})
 	register(&PropSpec{ID: "C10",
-		Explain: "Decides structural necessary conditions of `never more permissive than RFC 6902`: (R-OPSUBSET) the reader's op vocabulary is exactly add/remove/test, a test commits only if the next op is a remove of the same pointer with an equal value (each failing side only returns errors), any other op only reaches error returns; (R-PARENT) a test op is consumed as list context only after its pointer was related to the edit's pointer beyond the last index (same array); (R-PTRREAD) pointer tokens are decoded, \"-\" maps to -1, digits to indices; (R-PREPEND) a coalesced add is placed in front of those already collected; (R-FWD on before/after) the context the reader records reaches the array it belongs to at any depth.",
+		Explain:     "Decides structural necessary conditions of `never more permissive than RFC 6902`: (R-OPSUBSET) the reader's op vocabulary is exactly add/remove/test, a test commits only if the next op is a remove of the same pointer with an equal value (each failing side only returns errors), any other op only reaches error returns; (R-PARENT) a test op is consumed as list context only after its pointer was related to the edit's pointer beyond the last index (same array); (R-PTRREAD) pointer tokens are decoded, \"-\" maps to -1, digits to indices; (R-PREPEND) a coalesced add is placed in front of those already collected; (R-FWD on before/after) the context the reader records reaches the array it belongs to at any depth.",
 		NotDecided:  "The full index case analysis of the context inference (which of up to three ops are context for every op sequence).",
 		Assumptions: commonAssumptions,
 		Run: func(w *World, r *Report) {
@@ -341,7 +353,7 @@ func init() {
 			r.Floor("R-FWD", 25)
 		}})
 	register(&PropSpec{ID: "C11",
-		Explain: "Decides structural necessary conditions of the RFC 7386 rendering: (R-MERGEHUNK, diff side) every hunk a diff function builds on a path that is control-dependent on merge strategy carries Metadata.Merge and removes nothing; RenderMerge refuses hunks without the flag, turns every void addition into null in the diff it patches into the empty (void) document, and renders that document.",
+		Explain:     "Decides structural necessary conditions of the RFC 7386 rendering: (R-MERGEHUNK, diff side) every hunk a diff function builds on a path that is control-dependent on merge strategy carries Metadata.Merge and removes nothing; RenderMerge refuses hunks without the flag, turns every void addition into null in the diff it patches into the empty (void) document, and renders that document.",
 		NotDecided:  "Agreement of the rendered document with the RFC 7386 algorithm on concrete values.",
 		Assumptions: commonAssumptions,
 		Run: func(w *World, r *Report) {
@@ -353,7 +365,7 @@ func init() {
 			ruleWholeObject(w, r, v2, "v2", "Add")
 		}})
 	register(&PropSpec{ID: "C12",
-		Explain: "Decides structural necessary conditions of reading RFC 7386: (R-MERGEHUNK, reader side) every hunk readMergeInto builds carries Metadata.Merge, a null becomes a void addition (delete), and patchAll selects merge strategy exactly for hunks with the flag (R-FWD driver), so the leaf patch replaces instead of demanding an old value.",
+		Explain:     "Decides structural necessary conditions of reading RFC 7386: (R-MERGEHUNK, reader side) every hunk readMergeInto builds carries Metadata.Merge, a null becomes a void addition (delete), and patchAll selects merge strategy exactly for hunks with the flag (R-FWD driver), so the leaf patch replaces instead of demanding an old value.",
 		NotDecided:  "Conformance with the RFC pseudo-code on values (known divergence: a nested {} over an existing object replaces it).",
 		Assumptions: commonAssumptions,
 		Run: func(w *World, r *Report) {
@@ -369,7 +381,7 @@ func init() {
 
 func init() {
 	register(&PropSpec{ID: "C06",
-		Explain: "Decides narrow structural necessary conditions of a minimal list diff with context: (R-LCSDEP) the common subsequence handed to the hunk walk is computed by a call that receives the hash sequences of both arrays, each sequence is built from its own side's element hashCodes, the continuation of the walk receives the rest of the caller's sequences, and same-kind containers at the same position are diffed recursively on the sameContainerType-true edge instead of being replaced; (R-CTX1) every Before/After stored into a list hunk is a one-element list and the accumulating hunk is created with its before-context; (R-PROV) Before is drawn from the argument side and After from the receiver side (that is how list patch compares them).",
+		Explain:     "Decides narrow structural necessary conditions of a minimal list diff with context: (R-LCSDEP) the common subsequence handed to the hunk walk is computed by a call that receives the hash sequences of both arrays, each sequence is built from its own side's element hashCodes, the continuation of the walk receives the rest of the caller's sequences, and same-kind containers at the same position are diffed recursively on the sameContainerType-true edge instead of being replaced; (R-CTX1) every Before/After stored into a list hunk is a one-element list and the accumulating hunk is created with its before-context; (R-PROV) Before is drawn from the argument side and After from the receiver side (that is how list patch compares them).",
 		NotDecided:  "Minimality itself (size of the edit script against an optimum for every pair) and that the recorded context equals the neighbouring element: numeric/value statements.",
 		Assumptions: commonAssumptions,
 		Run: func(w *World, r *Report) {
@@ -381,7 +393,7 @@ func init() {
 
 func init() {
 	register(&PropSpec{ID: "C17",
-		Explain: "Decides narrow structural necessary conditions of the v1 (package lib) round trip and of `diff empty iff Equals`: (R-FWD(lib)) every recursive patch call forwards the caller's own old/new values, strategy and remaining path, and patchAll hands each hunk's own fields and the strategy derived from its path; (R-OPTFWD(lib)) every comparison made by Equals/hashCode/diff code receives the caller's own metadata (three call sites that only matter for metadata combinations outside C17's quantifier are exempt by name, with the reason in the checker's table); (R-PROV(lib)) OldValues are drawn from the receiver side and NewValues from the argument side; (R-NOEMPTY(lib)) accumulated set/multiset hunks are emitted only when non-empty and the scalar diff is empty exactly on the Equals-true edge; (R-PATHFRESH(lib)) hunks own their paths.",
+		Explain:     "Decides narrow structural necessary conditions of the v1 (package lib) round trip and of `diff empty iff Equals`: (R-FWD(lib)) every recursive patch call forwards the caller's own old/new values, strategy and remaining path, and patchAll hands each hunk's own fields and the strategy derived from its path; (R-OPTFWD(lib)) every comparison made by Equals/hashCode/diff code receives the caller's own metadata (three call sites that only matter for metadata combinations outside C17's quantifier are exempt by name, with the reason in the checker's table); (R-PROV(lib)) OldValues are drawn from the receiver side and NewValues from the argument side; (R-NOEMPTY(lib)) accumulated set/multiset hunks are emitted only when non-empty and the scalar diff is empty exactly on the Equals-true edge; (R-PATHFRESH(lib)) hunks own their paths.",
 		NotDecided:  "Positional list diff arithmetic (reverse order when shrinking, -1 append), in-path metadata decoding on values, rejection of bad patches (not promised by C17).",
 		Assumptions: commonAssumptions,
 		Run: func(w *World, r *Report) {
@@ -394,11 +406,13 @@ func init() {
 			rulePathFresh(w, r, lib, "lib")
 			ruleIdentUse(w, r, lib, "lib")
 			ruleObjRecurse(w, r, lib, "lib")
+			ruleDeleteVoid(w, r, pf)
+			ruleScanErr(w, r, lib, "lib")
 			r.Floor("R-FWD(lib)", 60)
 			r.Floor("R-OPTFWD(lib)", 80)
 		}})
 	register(&PropSpec{ID: "C18",
-		Explain: "Decides narrow structural necessary conditions of the v1 RFC renderings and readers: (R-PTR(lib)) writePointer writes a token for every path element or fails, keys reach the pointer only through jsonpointer.Escape; (R-PAIR(lib)) only test/remove/add ops, every remove right after a test of the same pointer and value; (R-PATHFRESH(lib)) hunks built by the readers own their paths; (R-JSONCODEC(lib)) one JSON encoding.",
+		Explain:     "Decides narrow structural necessary conditions of the v1 RFC renderings and readers: (R-PTR(lib)) writePointer writes a token for every path element or fails, keys reach the pointer only through jsonpointer.Escape; (R-PAIR(lib)) only test/remove/add ops, every remove right after a test of the same pointer and value; (R-PATHFRESH(lib)) hunks built by the readers own their paths; (R-JSONCODEC(lib)) one JSON encoding.",
 		NotDecided:  "Equivalence with RFC 6902 / RFC 7386 evaluators on values; the deferred string-or-integer typing of pointer tokens at patch time.",
 		Assumptions: commonAssumptions,
 		Run: func(w *World, r *Report) {
@@ -408,5 +422,7 @@ func init() {
 			rulePathFresh(w, r, lib, "lib")
 			ruleWholeObject(w, r, lib, "lib", "NewValues")
 			ruleJSONCodec(w, r, lib, "lib")
+			ruleDeleteVoid(w, r, newPatchFamily(w, lib, "lib"))
+			ruleScanErr(w, r, lib, "lib")
 		}})
 }
